@@ -216,6 +216,70 @@ def main(tier):
         ex1.shutdown()
         ex2.shutdown()
 
+    # ---- (3b) the reducers asked of get_reusable_executor reach the instance it returns, in
+    # every history of creations / replacements / reuses (no worker is ever started: the
+    # executors are only built, inspected and shut down)
+    reu = common.load("loky.reusable_executor")
+
+    def run_hist(hist):
+        """hist: tuple of ("get", job, res, timeout, reuse) | ("shutdown",); returns the number
+        of calls judged."""
+        cur = None          # model: dict(job, res, timeout, shut)
+        ex = None
+        k = 0
+        try:
+            for ev in hist:
+                if ev[0] == "shutdown":
+                    if ex is not None:
+                        ex.shutdown(wait=True)
+                        cur["shut"] = True
+                    continue
+                _, job, res, timeout, reuse = ev
+                kw = dict(job_reducers=job, result_reducers=res)
+                new = reu.get_reusable_executor(max_workers=1, timeout=timeout, reuse=reuse, **kw)
+                k += 1
+                same_kw = cur is not None and (cur["job"], cur["res"], cur["timeout"]) == (job, res, timeout)
+                fresh = (cur is None or cur["shut"] or reuse is False
+                         or (reuse == "auto" and not same_kw))
+                if fresh:
+                    cur = dict(job=job, res=res, timeout=timeout, shut=False)
+                    if new is ex:
+                        viol("reusable-not-replaced", f"history {_hn(hist)}: call {k} returned the "
+                             f"previous instance", _hn(hist))
+                elif new is not ex:
+                    viol("reusable-not-reused", f"history {_hn(hist)}: call {k} built a new "
+                         f"instance", _hn(hist))
+                ex = new
+                cq, rq = ex._call_queue._reducers, ex._result_queue._reducers
+                exp_j = cur["job"]
+                exp_r = cur["res"] if cur["res"] is not None else cur["job"]
+                if cq is not exp_j or rq is not exp_r or ex._timeout != cur["timeout"]:
+                    viol("reusable-wiring", f"history {_hn(hist)}: after call {k} the executor pickles "
+                         f"jobs with {_nm(cq)} (expected {_nm(exp_j)}), results with {_nm(rq)} "
+                         f"(expected {_nm(exp_r)}), timeout {ex._timeout} (expected "
+                         f"{cur['timeout']})", _hn(hist))
+        finally:
+            if ex is not None:
+                ex.shutdown(wait=True)
+        return k
+
+    def _hn(hist):
+        return tuple("shutdown" if e[0] == "shutdown" else
+                     f"get(job={_nm(e[1])},res={_nm(e[2])},t={e[3]},reuse={e[4]})" for e in hist)
+    gets_full = [("get", j, r, t, ru) for j in (None, jr, empty) for r in (None, rr, empty)
+                 for t in (10, 7) for ru in ("auto", True, False)]
+    gets_small = [("get", j, r, 10, "auto") for j in (None, jr) for r in (None, rr, empty)]
+    nh = 0
+    for h in itertools.product(gets_full, repeat=2):
+        n += run_hist(h)
+        nh += 1
+    for h in itertools.product(gets_small + [("shutdown",)], repeat=3):
+        if h[0][0] == "shutdown":
+            continue
+        n += run_hist(h)
+        nh += 1
+    reusable_histories = nh
+
     # ---- (4) the call item carries the pickler in force when it was created ---------------------
     for at_create, later in itertools.product(["cloudpickle", "pickle"], repeat=2):
         n += 1
@@ -245,10 +309,14 @@ def main(tier):
     rep.coverage = dict(
         evaluations=n, distinct_nontrivial=states + len(callables()) * 2 + 9, samples=samples or [{}],
         histories=states, history_depth=depth, exhaustive=True,
+        reusable_executor_histories=reusable_histories,
         rule="all histories up to the depth bound over {4 pickler selections, 3 reducer maps x 2 "
              "classes} replayed on the real reduction module, registries snapshotted after every "
              "operation; every built-in-reducer object kind under both back-ends; the 2x2 "
-             "executor reducer wiring; the 2x2 pickler-at-creation / pickler-later product")
+             "executor reducer wiring; every pair of get_reusable_executor calls over {3 job maps x 3 "
+             "result maps x 2 timeouts x 3 reuse modes} and every triple over a reduced alphabet "
+             "with shutdowns in between: identity (reused / replaced) and reducer wiring of the "
+             "instance returned; the 2x2 pickler-at-creation / pickler-later product")
     rep.assumptions = ["the worker-side clause is exercised on real processes for 4 pickler pairs x 3 delays"]
     code = rep.finish()
     print(f"[C15] tier={tier} operations={n} histories={states} violations={len(rep.violations)}")
